@@ -146,3 +146,46 @@ Theorem C12_case_order_type_parameter_refuted :
     first_match impl es_run (DType 8%N) 0 = Some i.
 Proof. exact case_order_type_parameter_refuted. Qed.
 Print Assumptions C12_case_order_type_parameter_refuted.
+
+(* ---------------- round 5: the wider fragment ---------------- *)
+(* dupArg, every function of the rule the fragment models (strings.Contains/Index/LastIndex/Compare/EqualFold/
+   HasPrefix/HasSuffix, the bytes forms, and the (old, new) pair of Replace / ReplaceAll): the duplicated pair is
+   the same value, without effects *)
+Theorem C12_dup_arg_pair_same : forall e x y, dup_arg e = true -> dup_arg_pair e = Some (x, y) -> same_value x y.
+Proof. exact dup_arg_pair_same. Qed.
+Print Assumptions C12_dup_arg_pair_same.
+
+(* the claims over named constants, defined types, arrays and struct fields are instances of the theorems above
+   (they quantify over every expression): the matchers fire on them, and on fields the "never yields a value" /
+   "false whenever it yields a value" claims include the nil-dereference panic *)
+Example C12_wider_fragment_matchers_fire :
+  bad_cond_less_and_greater (EBinary OLAnd (EBinary OLt (ESel "w" "avail" KPlain TInt) (EConst "cLo" (VInt 2)))
+                                           (EBinary OGt (ESel "w" "avail" KPlain TInt) (EConst "cHi" (VInt 7)))) = true /\
+  off_by1 (EIndex (ESel "w" "buf" KPlain TInts) (ECall (FPrim PLen) [ESel "w" "buf" KPlain TInts])) = true /\
+  off_by1 (EIndex (EVarK "mi" (KDef "myInts") TInts) (ECall (FPrim PLen) [EVarK "mi" (KDef "myInts") TInts])) = false /\
+  off_by1 (EIndex (EVarK "ma" KArr TInts) (ECall (FPrim PLen) [EVarK "ma" KArr TInts])) = false /\
+  dup_sub_expr (EBinary OEq (EVarK "mf" (KDef "myF") TFloat) (EVarK "mf" (KDef "myF") TFloat)) = true /\
+  dup_sub_expr (EBinary OEq (EIdent "p" TFloat) (EIdent "p" TFloat)) = false /\
+  dup_arg (ECall (FPrim PStrReplace) [EIdent "s" TString; EIdent "t" TString; EIdent "t" TString; ELit LInt "1" TInt]) = true.
+Proof. vm_compute. repeat split. Qed.
+
+(* offBy1 on a field reached through a pointer: with a nil pointer the index expression panics as well *)
+Example C12_off_by1_field_nil_pointer :
+  let e := EIndex (ESel "w" "buf" KPlain TInts) (ECall (FPrim PLen) [ESel "w" "buf" KPlain TInts]) in
+  off_by1 e = true /\
+  evalS {| vars := fun _ t => default_value t; funs := fun _ _ _ t => default_value t; nilp := fun _ => true |} e [] = Some (RPanic, []).
+Proof. vm_compute. repeat split. Qed.
+
+(* ---------------- round 6: pointers to arrays and maps ---------------- *)
+(* C12_sloppy_len_true, C12_off_by1_panics ... quantify over them as well: len of a (nil) pointer to an array is the
+   array's length, len of a map its size; a map read never panics and offBy1's slice filter keeps it (and the pointer)
+   out of the "always panics" claim *)
+Example C12_pointer_array_and_map_operands :
+  sloppy_len_claim (EBinary OGe (ECall (FPrim PLen) [EIdent "pa" TPArr]) (ELit LInt "0" TInt)) = Some true /\
+  sloppy_len_claim (EBinary OLt (ECall (FPrim PLen) [EVarK "mm" (KDef "myMap") TMapIS]) (ELit LInt "0" TInt)) = Some false /\
+  off_by1 (EIndex (EVarK "mm" (KDef "myMap") TMapIS) (ECall (FPrim PLen) [EVarK "mm" (KDef "myMap") TMapIS])) = false /\
+  evalS (env_of [("mm", VMap [(0, "a")]%Z)] []) (EIndex (EVarK "mm" (KDef "myMap") TMapIS) (ECall (FPrim PLen) [EVarK "mm" (KDef "myMap") TMapIS])) []
+    = Some (RVal (VStr ""), []) /\
+  evalS (env_of [("pa", VPArr 3 None)] []) (ECall (FPrim PLen) [EIdent "pa" TPArr]) [] = Some (RVal (VInt 3), []) /\
+  evalS (env_of [("pa", VPArr 3 None)] []) (EIndex (EIdent "pa" TPArr) (ELit LInt "0" TInt)) [] = Some (RPanic, []).
+Proof. vm_compute. repeat split. Qed.
